@@ -306,6 +306,13 @@ print('@@' + json.dumps(out))
         chk.harness_error('llsym in concrete mode disagrees with the real build on %d/%d samples' % (dis, len(cases)))
 
 
+def dispatch(args):
+    if args[2] == 'placement':
+        from harness import C01
+        return C01.worker((args[0], args[1], args[3], args[4], 0))
+    return worker(args)
+
+
 def run(chk):
     cases = [(chk.prop, chk.tier, size, kind) for size in (1, 2, 4, 8) for kind in ('signed', 'unsigned')]
     cases.append((chk.prop, chk.tier, 1, 'bool'))
@@ -313,13 +320,19 @@ def run(chk):
                   'storage': 'all 2^(8*size) contents', 'python int': 'any magnitude (128-bit payload, see assumptions)',
                   '_Bool': 'width 1 only'}
     chk.outside = ['_Bool bit-fields wider than 1 (GCC rejects them)',
-                   'placement (bitshift/bitsize) comes from b_complete_struct_or_union: see C01',
+                   'placement (bitshift/bitsize) of aggregates with more than two members: C01',
                    'non-int initializers (go through __index__ in CPython)']
     chk.assume('CPython API contracts as listed in vf/pystubs.py (PyLong_AsLongLong, PyLong_From*, PyErr_*); '
                'allocation never fails')
     chk.assume('CT_PRIMITIVE_FITS_LONG is set as new_primitive_type() sets it (size<=8 signed, size<8 unsigned)')
     chk.assume('Python int modelled as signed 128-bit payload: C code observes it only through PyLong_AsLongLong '
                '(class + low 64 bits), so every magnitude has a representative')
+    # where a bit-field lives (cf_bitshift / cf_bitsize, which the kernels above take as given) is decided by
+    # b_complete_struct_or_union: the placement obligations of harness/C01.py for aggregates of two bit-fields -- struct and
+    # union (every member of a union starts at bit 0) -- are part of this check too
+    cases.append((chk.prop, chk.tier, 'placement', ('bitfield', 'bitfield'), False))
+    cases.append((chk.prop, chk.tier, 'placement', ('bitfield', 'bitfield'), True))
+    cases.append((chk.prop, chk.tier, 'placement', ('prim', 'bitfield'), True))
     irgen.backend()           # compile once, workers inherit it through fork
-    hutil.run_cases(chk, cases, worker)
+    hutil.run_cases(chk, cases, dispatch)
     translator_validation(chk, 40 if chk.tier == 'quick' else 2000)
